@@ -304,6 +304,7 @@ structure World where
 
 inductive Outcome
   | served | notFound | forbidden | dsError | internalError
+  | badRequest      -- update handler only: the request body could not be decoded (400)
   deriving DecidableEq, Repr
 
 structure Effects where
@@ -418,13 +419,17 @@ def expectedSqlite (cfg : SqliteCfg) (data : Option Val) : Expected :=
   | fk => combine cfg.listCfg fk
 
 /-- `HttpSQLiteUpdateRequestHandler.handle` (POST); `data = none`: `get_data` raises (and the
-exception escapes: there is no `data_source_error_action` here) -/
-def decideSqlite (P : Pton) (cfg : SqliteCfg) (data : Option Val) (client : String) : Outcome × Effects :=
+exception escapes: there is no `data_source_error_action` here); `bodyOk = false`: the action takes its
+value from the request body and the body (or its Content-Length) cannot be decoded -/
+def decideSqlite (P : Pton) (cfg : SqliteCfg) (data : Option Val) (client : String)
+    (bodyOk : Bool := true) : Outcome × Effects :=
   let e : Effects := { getDataCalled := cfg.keyPath.isSome }
   if cfg.keyPath.isSome && data.isNone then (.dsError, e)
   else
     match permission P (expectedSqlite cfg data) client with
     | some o => (o, e)
-    | none => (.served, { e with storeOps := 1 })
+    | none =>
+      -- the body is read and decoded only now, after the access decision
+      if bodyOk then (.served, { e with storeOps := 1 }) else (.badRequest, e)
 
 end Vinegar.Cidr
